@@ -40,11 +40,14 @@ theorem CtlSim.prov {c1 c2 : Controller γ} {D : γ → Prop} {G : Err → Prop}
 
 /-! ### a string that is none of the real controller's own sites -/
 
-structure NotSite (b : String) : Prop where
+/-- … none of the sites of `handle_start_tag`, the aux-info continuation and `handle_end_tag` -/
+structure NotSiteC (b : String) : Prop where
   vm : vmMsg ≠ b
   disp : dispMsg ≠ b
   sync : syncMsg ≠ b
   matcher : "Bytes::slice out of range (attribute matcher)" ≠ b
+
+structure NotSite (b : String) : Prop extends NotSiteC b where
   payload : "end-tag handler payload missing" ≠ b
   attr : "Bytes::slice out of range (attribute raw)" ≠ b
   base : "token source range before the slice base" ≠ b
@@ -53,7 +56,7 @@ structure NotSite (b : String) : Prop where
 def NF (b : String) (s : St) : Prop := s.fault ≠ some b
 
 section
-variable {b : String} (hb : NotSite b)
+variable {b : String} (hb : NotSiteC b)
 include hb
 
 theorem endTag_nf (s : St) (name : LocalName) (h : NF b s) : NF b (endTag s name).1 := by
@@ -121,6 +124,12 @@ theorem auxInfo_nb (s : St) (info : AuxInfo) : (auxInfo s info).2 ≠ .error (.p
         exact hb.vm hh
       · exact afterVm_nb hb _ _ _ _
   · intro hh; cases hh
+
+end
+
+section
+variable {b : String} (hb : NotSite b)
+include hb
 
 omit hb in
 theorem outOf_nb (f : Bool) (bs : Bytes) : (outOf f bs).err ≠ some (.panic b) := by
@@ -213,7 +222,7 @@ theorem dispOwn_iff (e : Err) : DispOwn e ↔ ∃ b, OwnStr b ∧ e = .panic b :
 
 theorem ownStr_notSite {b : String} (h : OwnStr b) : NotSite b := by
   rcases h with h | h | h | h <;> subst h <;>
-    exact ⟨by decide, by decide, by decide, by decide, by decide, by decide, by decide⟩
+    exact ⟨⟨by decide, by decide, by decide, by decide⟩, by decide, by decide, by decide⟩
 
 /-- the states whose recorded fault is neither the guard's site nor one of the dispatcher's own -/
 def DO (cfg : Cfg) (g : FullSt cfg) : Prop := NGF g.1 ∧ ∀ b, OwnStr b → NF b g.1
@@ -226,7 +235,7 @@ theorem fullCtl_panicLaws_DO (cfg : Cfg) : PanicLaws (fullCtl cfg) (DO cfg) wher
     show NF b (auxInfo g.1 i).1
     unfold NF; rw [auxInfo_fault]; exact h.2 b hb⟩
   endTag_D := fun g n h => ⟨(fullCtl_panicLaws cfg).endTag_D g n h.1, fun b hb =>
-    endTag_nf (ownStr_notSite hb) g.1 n (h.2 b hb)⟩
+    endTag_nf (ownStr_notSite hb).toNotSiteC g.1 n (h.2 b hb)⟩
   token_D := fun g t h => ⟨(fullCtl_panicLaws cfg).token_D g t h.1, fun b hb => by
     show NF b (token cfg g.1 t).1
     unfold NF; rw [(token_frame cfg g.1 t).2]; exact h.2 b hb⟩
@@ -245,9 +254,9 @@ theorem cbErr_not_own (cfg : Cfg) (e : Err) (h : CbErr (fullCtl cfg) (DO cfg) e)
   have hs := ownStr_notSite hb
   obtain ⟨g, hg, h1 | h1 | h1 | h1⟩ := h
   · obtain ⟨n, ns, he⟩ := h1
-    exact startTag_nb hs g.1 n ns (hg.2 b hb) he
+    exact startTag_nb hs.toNotSiteC g.1 n ns (hg.2 b hb) he
   · obtain ⟨i, he⟩ := h1
-    exact auxInfo_nb hs g.1 i he
+    exact auxInfo_nb hs.toNotSiteC g.1 i he
   · obtain ⟨t, he⟩ := h1
     exact token_nb hs cfg g.1 t (hg.2 b hb) he
   · exact handleEnd_nb hs cfg g.1 (hg.2 b hb) h1
